@@ -12,7 +12,7 @@
 
    [fixes] selects, per repaired defect, the code as it was found (false) or after its fix: commit
    (true); [repaired] is the code the theorems of Props/C07.v are about. *)
-From DV Require Import Base.Prelude.
+From DV Require Import Base.Prelude Gen.RepoFacts.
 From Coq Require Import String Ascii.
 From stdpp Require Import gmap strings.
 Local Open Scope string_scope.
@@ -72,8 +72,8 @@ Record state := mkState {
   st_next_r : rid;
   st_next_i : N }.
 
-(* Initialize: repoID 1, versionID 1, instanceID 1 *)
-Definition init : state := mkState ∅ ∅ ∅ ∅ ∅ ∅ 1%N 1%N 1%N.
+(* Initialize: repoID and versionID as the source has them (Gen.RepoFacts), instanceID 1 *)
+Definition init : state := mkState ∅ ∅ ∅ ∅ ∅ ∅ n_init_versionID n_init_repoID 1%N.
 
 Record fixes := mkFixes {
   fx_merge_validate : bool;   (* merge validates every parent before it creates the child *)
@@ -131,8 +131,10 @@ Definition atoi (s : string) : option Z :=
   end.
 
 (* key of m.branchToUUID: string(r.uuid) + name, the empty name standing for "master" *)
-Definition branch_label (name : string) : string := if String.eqb name "" then "master" else name.
+Definition branch_label (name : string) : string := if String.eqb name "" then s_master_label else name.
 Definition head_key (root : uuid) (name : string) : string := root ++ branch_label name.
+
+Definition in_list (x : string) (l : list string) : bool := existsb (String.eqb x) l.
 
 (* ---- lookups and updates ---- *)
 Definition repo_by_uuid (s : state) (u : uuid) : option repo :=
@@ -452,7 +454,6 @@ Definition do_delete_repo (s : state) (u : uuid) (pass : string) : state * outco
   end.
 
 (* ---- data instances: newData, renameDataByName, DeleteDataByName ---- *)
-Definition in_list (x : string) (l : list string) : bool := existsb (String.eqb x) l.
 
 Definition bump_instance_id (s : state) : state :=
   mkState (st_repos s) (st_repo_of s) (st_roots s) (st_u2v s) (st_v2u s) (st_heads s)
@@ -550,7 +551,7 @@ Definition h_branch (fx : fixes) (s : state) (x : uref) (branch assign : string)
   | Done u =>
     match parse_assign assign with
     | Done a =>
-      if String.eqb branch "" || String.eqb branch "master" then (s, Fail)
+      if in_list branch l_branch_refused then (s, Fail)     (* "" and "master" *)
       else do_new_version fx s u branch a fresh
     | o => (s, recast o)
     end
@@ -563,7 +564,7 @@ Definition h_branch (fx : fixes) (s : state) (x : uref) (branch assign : string)
 Definition h_tag (fx : fixes) (s : state) (x : uref) (tag : string) : state * outcome uuid :=
   match node_gate s x true with
   | Done u =>
-    let (s1, r) := do_new_version fx s u ("tag-" ++ tag) (Some tag) "" in
+    let (s1, r) := do_new_version fx s u (s_tag_prefix ++ tag) (Some tag) "" in
     match r with
     | Done c => (fst (do_commit s1 tag), Done c)
     | o => if fx_tag_return fx then (s1, o) else (fst (do_commit s1 tag), o)
@@ -600,7 +601,7 @@ Fixpoint resolve_extend (fx : fixes) (s : state) (olds : list uuid) (ext : list 
       match extension_of ext old with
       | Some _ => resolve_extend fx s olds ext rest
       | None =>
-        match do_new_version fx s old ("conflict-" ++ old) None fresh with
+        match do_new_version fx s old (s_conflict_prefix ++ old) None fresh with
         | (s1, Done cu) => resolve_extend fx s1 olds ((old, cu) :: ext) rest
         | (s1, _) => resolve_extend fx s1 olds ext rest       (* the error is only logged *)
         end
